@@ -146,4 +146,37 @@ theorem pownat_jet {x : List ℝ} {X : ℝ → ℝ} (hx : JetOf x X) (r : ℕ) :
     simp only [powNatS]
     exact (foldl_mul_jet hx (r + 2)).1
 
+/-! ### an array of non-negative integer exponents: masked repeated products (one entry of the array) -/
+theorem powMask_jet {x : List ℝ} {X : ℝ → ℝ} (hx : JetOf x X) (r m : ℕ) :
+    JetOf (powMaskS r m x) (fun t => X t ^ (min r m)) ∧ (powMaskS r m x).length = x.length := by
+  induction m with
+  | zero =>
+    simp only [powMaskS, List.range_zero, List.foldl_nil, Nat.min_zero, pow_zero]
+    exact ⟨jetOf_const 1 _, by simp [constS]⟩
+  | succ m ih =>
+    unfold powMaskS at ih ⊢
+    rw [List.range_succ, List.foldl_append]
+    simp only [List.foldl_cons, List.foldl_nil]
+    by_cases h : m + 1 ≤ r
+    · rw [if_pos h]
+      refine ⟨?_, by rw [mulS_length]⟩
+      have hm : min r m = m := by omega
+      have hm1 : min r (m + 1) = m + 1 := by omega
+      rw [hm] at ih
+      have := hx.mul ih.1 ih.2
+      have e : (fun t => X t ^ (min r (m + 1))) = X * fun t => X t ^ m := by
+        funext t; simp only [Pi.mul_apply, hm1]; ring
+      rw [e]; exact this
+    · rw [if_neg h]
+      have hm : min r (m + 1) = min r m := by omega
+      rw [hm]; exact ih
+
+/-- with the loop bound `m` at least the entry's exponent (it is the maximum over the array) the entry of
+`x ** r` is the jet of `X ^ r`: the same curve as for the Python-int exponent, for every base point (zero
+included: no division) -/
+theorem powMask_jet_of_le {x : List ℝ} {X : ℝ → ℝ} (hx : JetOf x X) (r m : ℕ) (h : r ≤ m) :
+    JetOf (powMaskS r m x) (fun t => X t ^ r) := by
+  have := (powMask_jet hx r m).1
+  rwa [Nat.min_eq_left h] at this
+
 end AV
